@@ -32,11 +32,39 @@ class DesignEval(Evaluator):
     def __init__(self, env):
         Evaluator.__init__(self, env)
 
+    def ev(self, e):
+        # Stream arm: an element-wise zero guard over X - (el if el else 1 for el in X), xmap(lambda el: el or 1, X) -
+        # has, sample by sample, the value of X wherever X is not zero (the shape of the guard itself: C13.zguard)
+        g = _guard_source(e)
+        if g is not None:
+            return self.ev(g)
+        return Evaluator.ev(self, e)
+
     def call(self, e):
         name = unparse(e.func)
         if name == "thub" and len(e.args) == 2:
             return self.ev(e.args[0])
         return Evaluator.call(self, e)
+
+
+def _guard_source(e):
+    """X of an element-wise map over X whose element is (a choice between) the sample itself and a constant"""
+    if isinstance(e, (ast.GeneratorExp, ast.ListComp)) and len(e.generators) == 1 and not e.generators[0].ifs \
+            and isinstance(e.generators[0].target, ast.Name):
+        var, elt, src = e.generators[0].target.id, e.elt, e.generators[0].iter
+    elif isinstance(e, ast.Call) and unparse(e.func) in ("xmap", "map", "it.imap") and len(e.args) == 2 \
+            and isinstance(e.args[0], ast.Lambda) and len(e.args[0].args.args) == 1:
+        var, elt, src = e.args[0].args.args[0].arg, e.args[0].body, e.args[1]
+    else:
+        return None
+    if isinstance(elt, ast.IfExp):
+        arms = [unparse(elt.body), unparse(elt.orelse)]
+        if var in arms and isinstance(elt.body if arms[1] == var else elt.orelse, ast.Constant):
+            return src
+    if isinstance(elt, ast.BoolOp) and isinstance(elt.op, ast.Or) and len(elt.values) == 2 and unparse(elt.values[0]) == var \
+            and isinstance(elt.values[1], ast.Constant):
+        return src
+    return None
 
 
 def design_paths(fn, iterable=False):
@@ -199,6 +227,13 @@ def run(chk, repo):
                     continue
                 raise AnalysisError("%s not interpretable: %s" % (W, ex))
             chk.require(paths, "%s: no return path" % W)
+            if known and any(isinstance(n_, ast.Call) and unparse(n_.func) == "isinstance" and len(n_.args) == 2
+                             and unparse(n_.args[1]) == "Iterable" for n_ in ast.walk(st.node)):
+                # the arm for a Stream of cut-offs, sample by sample (a zero of cos(cutoff) apart: C13.zguard)
+                try:
+                    paths = paths + design_paths(st.node, iterable=True)
+                except (Inconclusive, PathLimit) as ex:
+                    raise AnalysisError("%s (Stream arm) not interpretable: %s" % (W, ex))
             for val, env, rst, trail in paths:
                 npaths += 1
                 g = val.subst({"x": RF.const(at)})
